@@ -107,10 +107,16 @@ def _check_values(ctx, fname, fn_call, factor, rtol, rep_from, rep_to, context):
     for v in VALUES:
         expected = v * factor
         for kind, obj, _ in _kinds(v):
+            keep = numpy.array(obj, dtype=float, copy=True) if kind in ("1d", "series", "0d") else None
             status, res = _call(fn_call, obj)
             ctx.evaluations += 1
             if same:
                 ctx.trivial += 1
+            if keep is not None and status == "ok" and not numpy.array_equal(keep, numpy.asarray(obj, dtype=float)):
+                # a conversion returns a new value: the array or Series the caller passed in is still the caller's
+                ctx.violation("%s/writes-into-argument/%s" % (fname, _bk(rep_from, rep_to)), "the conversion modified the array passed to it", pair=pairkey, kind=kind, before=keep, after=numpy.asarray(obj, dtype=float),
+                              context=context)
+                return
             if status == "exc":
                 ctx.violation("%s/raises/%s" % (fname, _bk(rep_from, rep_to)),
                               "conversion between valid representations raised %s" % type(res).__name__,
